@@ -481,9 +481,12 @@ func (s *session) judge() {
 	}
 	// F3 grace: an allowed message that has not arrived yet gets a generous watchdog before
 	// its absence is looked at (only costs time when something is missing)
+	deadline := time.Now().Add(e2e.Watchdog / 2) // one grace period per session
+	if r.Violations() > 0 {
+		deadline = time.Now().Add(200 * time.Millisecond) // a witness exists already: do not spend minutes on more
+	}
 	for _, m := range s.sent {
 		if m.Kind == "custom-registered" && m.Decision == "allow" && len(evByID[m.ID]) > 0 {
-			deadline := time.Now().Add(e2e.Watchdog / 2)
 			for len(delivered(m)) == 0 && time.Now().Before(deadline) {
 				time.Sleep(2 * time.Millisecond)
 			}
